@@ -670,7 +670,10 @@ class Gen:
         # CONSTs
         for i in range(self.pick([0, 1, 2])):
             t = self.pick(['I', 'I', 'T', 'S'] if wide else ['I', 'T'])
-            self.consts.append({'n': 'k%d%s' % (i, SUF[t]), 't': t, 'pi': 0, 'e': self.lit(t)})
+            e = self.lit(t)
+            # a constant without type character has the type of its value (CONST g = "hello" is a string)
+            bare = e['k'] in ('num', 'str') and self.chance(0.5)
+            self.consts.append({'n': ('kq%d' % i) if bare else 'k%d%s' % (i, SUF[t]), 't': t, 'pi': 0, 'e': e})
         sc = {'vars': [], 'frozen': set(), 'counters': set(), 'loops': [], 'consts': list(self.consts),
               'funcs': [], 'subs': [], 'proc': '', 'wide': wide}
         main_vars = self.declare_vars(sc, wide, n_scalars=self.rng.randint(3, 6))
@@ -757,6 +760,9 @@ def num_text(e):
         if t == 'I' and False:
             s += '%'
         return s
+    if e.get('txt'):
+        # a decimal spelling whose value is the given float (e.g. 0.1 for the SINGLE 13421773 * 2^-27)
+        return e['txt']
     m, ex = e['m'], e['e']
     from fractions import Fraction
     val = Fraction(m) * (Fraction(2) ** ex)
